@@ -46,6 +46,14 @@ def streams(rng, tier):
         i = rng.choice(pos)
         s = s[:i] + rng.choice(["\u0661", "\uff11", "\u00b2", "\u0967", "\u2460", "\U0001d7d9"]) + s[i + 1:]
         out.append(Case("digit-confusable", "v.parse", [s])); out.append(Case("digit-confusable", "v.canon", [rng.choice("TF"), s]))
+    for _ in range(400 if q else 8000):
+        # one letter replaced by a look-alike (U+212A lower-cases to "k", U+017F case-folds to "s", ...): never a version, passes through unchanged
+        v = gen.rand_v_with_k(rng) if rng.random() < 0.5 else gen.rand_v(rng, local_p=0.5)
+        s0 = gen.spell(rng, v, ws=rng.random() < 0.3, vprefix=rng.random() < 0.3)
+        s = gen.confuse_letter(rng, s0)
+        if s is None: continue
+        out.append(Case("letter-confusable", "v.parse", [s0])); out.append(Case("letter-confusable", "v.parse", [s]))
+        out.append(Case("letter-confusable", "v.canon", [rng.choice("TF"), s]))
     if not q:       # magnitudes just below CPython's 4300-digit int() limit (thorough tier only: the model takes seconds for each)
         for x in gen.HUGE4K:
             for tpl in ["%d", "0001.%d.0", "%d!1", "1+%d", "1.post%d", "1a%d"]:
